@@ -12,7 +12,7 @@
 (declare-fun validP (Fp Fp Fp) Bool)   ; on the curve, in the prime-order subgroup, Z != 0
 (declare-fun validE (Fp Fp Fp Fp) Bool)
 (declare-fun validN (Fp Fp Fp) Bool)
-(declare-fun ppbase (Int) G)           ; the base point a PrecompPoint table was built for (ghost, by object id)
+(declare-fun ppbase (Int Int) G)       ; the base point a PrecompPoint table was built for (ghost, by the location of the PrecompPoint)
 ; abelian group / module laws in the orientations the proofs use
 (assert (forall ((x G)) (! (= (g_add x g_zero) x) :pattern ((g_add x g_zero)))))
 (assert (forall ((x G)) (! (= (g_add g_zero x) x) :pattern ((g_add g_zero x)))))
@@ -29,3 +29,6 @@
 (assert (and (validP fp_zero fp_one fp_one) (= (gelP fp_zero fp_one fp_one) g_zero)))
 (assert (forall ((k Int)) (! (= (g_smul k g_zero) g_zero) :pattern ((g_smul k g_zero)))))
 (assert (forall ((X Fp) (Y Fp) (Z Fp)) (! (=> (validP X Y Z) (not (and (= X fp_zero) (= Y fp_zero)))) :pattern ((validP X Y Z)))))
+; extended coordinates: (X:Y:Z:T) with T = XY/Z represents the projective point (X:Y:Z); (0:1:1:0) is the neutral element (A3)
+(assert (forall ((X Fp) (Y Fp) (Z Fp) (T Fp)) (! (=> (validE X Y Z T) (and (validP X Y Z) (= (gelP X Y Z) (gelE X Y Z T)))) :pattern ((gelE X Y Z T)))))
+(assert (and (validE fp_zero fp_one fp_one fp_zero) (= (gelE fp_zero fp_one fp_one fp_zero) g_zero)))
